@@ -439,3 +439,40 @@ def _c12c():
     n = z3.Length(reg)
     removed = z3.Concat(z3.Extract(reg, 0, i), z3.Extract(reg, i + 1, n - i - 1))
     return [z3.Not(z3.Contains(s, u))], removed == s
+
+
+# C19 -----------------------------------------------------------------------------
+@lemma("C19/Quantity/equal-implies-equal-hash/with-reference-unit", ["C19"],
+       "for a type with reference unit: a == b (contract of __eq__: same "
+       "class, a1 == a2*s2/s1) implies equal __hash__ (contract: hash of the "
+       "reference value and the reference unit) -- whatever the units and "
+       "whether the amounts are held as Decimal or Fraction (hash_num is a "
+       "function of the value)")
+def _c19a():
+    a1, a2, s1, s2 = R("a1"), R("a2"), R("s1"), R("s2")
+    hr = I("hash_of_ref_unit")
+    h1 = S.hash_pair(S.hash_num(a1 * s1 / 1), S.hash_pair(hr, S.HASH_NIL))
+    h2 = S.hash_pair(S.hash_num(a2 * s2 / 1), S.hash_pair(hr, S.HASH_NIL))
+    return [s1 > 0, s2 > 0, a1 == a2 * s2 / s1], h1 == h2
+
+
+@lemma("C19/Quantity/equal-implies-equal-hash/identical-unit", ["C19"],
+       "for a type without reference unit and identical units: a == b means "
+       "equal amounts, hence equal hashes of (amount, unit)")
+def _c19b():
+    a1, a2 = R("a1"), R("a2")
+    hu = I("hash_of_unit")
+    h1 = S.hash_pair(S.hash_num(a1), S.hash_pair(hu, S.HASH_NIL))
+    h2 = S.hash_pair(S.hash_num(a2), S.hash_pair(hu, S.HASH_NIL))
+    return [a1 == a2], h1 == h2
+
+
+@lemma("C19/ExchangeRate/equal-implies-equal-hash", ["C19"],
+       "ExchangeRate.__eq__ compares the quotation tuples, __hash__ hashes "
+       "the quotation tuple: congruence")
+def _c19c():
+    u1, u2, t1, t2 = I("hu1"), I("hu2"), I("ht1"), I("ht2")
+    r1, r2 = R("r1"), R("r2")
+    h1 = S.hash_pair(u1, S.hash_pair(t1, S.hash_pair(S.hash_num(r1), S.HASH_NIL)))
+    h2 = S.hash_pair(u2, S.hash_pair(t2, S.hash_pair(S.hash_num(r2), S.HASH_NIL)))
+    return [u1 == u2, t1 == t2, r1 == r2], h1 == h2
